@@ -570,14 +570,20 @@ class PlanJoinTablesQuery:
         if item.conditions:
             row_dict = {}
             for i, el in enumerate(item.conditions):
-                if isinstance(el.args[0], Identifier) and el.op == '=':
-                    col_name = el.args[0].parts[-1]
+                if el.op != '=' or len(el.args) != 2:
+                    continue
+                col, value = el.args
+                if not isinstance(col, Identifier):
+                    # the condition was written as: 'x' = col
+                    col, value = value, col
+                if isinstance(col, Identifier):
+                    col_name = col.parts[-1]
                     if col_name.lower() == predict_target:
                         # don't add predict target to parameters
                         continue
 
-                    if isinstance(el.args[1], (Constant, Parameter)):
-                        row_dict[el.args[0].parts[-1]] = el.args[1].value
+                    if isinstance(value, (Constant, Parameter)):
+                        row_dict[col.parts[-1]] = value.value
 
                     # exclude condition
                     el._orig_node.args = [Constant(0), Constant(0)]
